@@ -1245,12 +1245,12 @@ func mergeChunks(chunks []*MessageChunk) ([]byte, error) {
 	}
 
 	var b []byte
-	var seqnr uint32
-	for _, c := range chunks {
-		if c.SequenceHeader.SequenceNumber == seqnr {
+	for i, c := range chunks {
+		// a chunk is a duplicate only if it repeats the sequence number of the
+		// chunk before it; sequence number 0 is valid after a wrap-around
+		if i > 0 && c.SequenceHeader.SequenceNumber == chunks[i-1].SequenceHeader.SequenceNumber {
 			continue // duplicate chunk
 		}
-		seqnr = c.SequenceHeader.SequenceNumber
 		b = append(b, c.Data...)
 	}
 	return b, nil
